@@ -120,10 +120,84 @@ type result struct {
 }
 
 // sequential purity bundle; returns a description of the first failure.
+// watchWriter runs fn on every flush of the encoder above it.
+type watchWriter struct{ fn func() }
+
+func (w watchWriter) Write(p []byte) (int, error) { w.fn(); return len(p), nil }
+
+var (
+	watched       sync.Map // transaction already observed (per encoder)
+	watchedFlush  atomic.Int64
+	watchedTxns   atomic.Int64
+	watchedEncode atomic.Int64
+)
+
+// intactWhileEncoded: the encoders behind IDs, signature hashes and the wire form must not touch their input even
+// TEMPORARILY (clear a field, encode, restore): another caller reading the same transaction in that window sees a
+// different transaction. Every transaction of b is encoded (semantic form = the ID preimage, and full form) through an
+// Encoder whose underlying writer re-digests the transaction on every flush; 128 paddings (0, 8, ... 1016 bytes written
+// first) move the flush points of the 1024-byte encoder buffer across the whole encoding, so that every window of 8 or
+// more encoded bytes is observed. Each distinct transaction is observed once per run.
+func intactWhileEncoded(b types.Block) (sig, desc string) {
+	observe := func(key, name string, digest func() types.Hash256, encode func(e *types.Encoder)) (string, string) {
+		if _, dup := watched.LoadOrStore(name+"|"+key, true); dup {
+			return "", ""
+		}
+		watchedTxns.Add(1)
+		d0 := digest()
+		for pad := 0; pad < 1024; pad += 8 {
+			bad := false
+			e := types.NewEncoder(watchWriter{func() {
+				watchedFlush.Add(1)
+				if digest() != d0 {
+					bad = true
+				}
+			}})
+			e.Write(make([]byte, pad))
+			encode(e)
+			e.Flush()
+			watchedEncode.Add(1)
+			if bad {
+				return "inputs-modified|during " + name, fmt.Sprintf("the transaction differed from its original while %s was running (observed from the writer under the encoder, %d bytes written before it)", name, pad)
+			}
+			if digest() != d0 {
+				return "inputs-modified|" + name, "the transaction was modified by " + name
+			}
+		}
+		return "", ""
+	}
+	for i := range b.Transactions {
+		t := &b.Transactions[i]
+		digest := func() types.Hash256 { return spec.H(enc(t.EncodeTo)) }
+		if s, d := observe(t.ID().String()+fmt.Sprint(len(t.Signatures)), "Transaction.EncodeTo", digest, func(e *types.Encoder) { t.EncodeTo(e) }); s != "" {
+			return s, d
+		}
+	}
+	if b.V2 != nil {
+		for i := range b.V2.Transactions {
+			t := &b.V2.Transactions[i]
+			digest := func() types.Hash256 { return spec.H(enc(t.EncodeTo)) }
+			key := digest().String()
+			if s, d := observe(key, "V2TransactionSemantics.EncodeTo (the transaction ID preimage)", digest, func(e *types.Encoder) { (*types.V2TransactionSemantics)(t).EncodeTo(e) }); s != "" {
+				return s, d
+			}
+			if s, d := observe(key, "V2Transaction.EncodeTo", digest, func(e *types.Encoder) { t.EncodeTo(e) }); s != "" {
+				return s, d
+			}
+		}
+	}
+	return "", ""
+}
+
 func purity(w *chain.World, b types.Block, bs consensus.V1BlockSupplement, txFaultOnly bool) (sig, desc string) {
 	cs := w.CS
 	ts := w.TargetTimestamp()
 	d0 := inputDigest(cs, b, bs)
+	if !txFaultOnly {
+		if s, d := intactWhileEncoded(b); s != "" {
+			return s, d
+		}
+	}
 	same := func(stage string) (string, string) {
 		if inputDigest(cs, b, bs) != d0 {
 			return "inputs-modified|" + stage, "the state, block, supplement or an element proof passed in was modified by " + stage
@@ -505,6 +579,8 @@ func buildShapes(c *vf.Ctx, keys *chain.Keys) []shape {
 		[]chain.Action{chain.V1Pay(true, 2), chain.V2Revise("pay"), chain.V2SF(true)})
 	mk("v2-only", "v2 block spending a threshold-policy output and a legacy unlock-conditions output", nil,
 		[]chain.Action{chain.V2Pay(chain.AddrThresh, true, 2), chain.V2Pay(chain.AddrV1, false, 1)})
+	mk("v2-only", "v2 block with a contract renewal, an attestation and a payment", [][]chain.Action{{chain.V2Form(4, 2, 100)}, nil},
+		[]chain.Action{chain.V2Renew("partial"), chain.V2Attest(), chain.V2Pay(chain.AddrV2, true, 2)})
 	return out
 }
 
@@ -985,6 +1061,9 @@ func run(c *vf.Ctx) {
 	// (c)
 	tc := time.Now()
 	racePass(c)
+	c.Count("transactions_observed_while_encoded", watchedTxns.Load())
+	c.Count("encodings_observed", watchedEncode.Load())
+	c.Count("flushes_observed", watchedFlush.Load())
 	c.Set("part_c_wall_s", time.Since(tc).Seconds())
 	c.Count("pool_objects_handed_from_one_caller_to_another", handoffs.Load())
 	c.Count("schedules_with_a_pool_object_shared_between_callers", handoffExecs.Load())
